@@ -141,7 +141,17 @@ def generate(run_seed, tier):
         # the same optimizer object is fitted a second time (other posterior,
         # possibly another number of modes)
         second = gen_modes(c.choice([1, 2, 3]) if multimodal else 1)
+    poly_cluster = True
+    if sampler == 'polychord' and c.random() < 0.3:
+        # PolyChord run with clustering switched off (constructor option):
+        # one solution, read from the main chain file; cluster files of an
+        # earlier run may still lie in the directory
+        poly_cluster = False
+        modes = modes[:1]
+        if second:
+            second = second[:1]
     cfg = {'sampler': sampler, 'R': Rn, 'model': mcfg,
+           'poly_cluster': poly_cluster,
            'obs': obs_cfg, 'fit': fit, 'derived': derived,
            'multimodal': multimodal, 'modes': modes,
            'sigma_fraction': c.choice([0.1, 0.5, 1.0, 1.0]),
@@ -281,7 +291,10 @@ def execute(case, keep_text=False, after_fit=None):
             if skind == 'polychord':
                 st = cbs['settings']
                 if rank == 0:
-                    samplers.write_polychord_files(st.base_dir, modes)
+                    samplers.write_polychord_files(
+                        st.base_dir, modes, cluster=bool(st.do_clustering))
+                    if not st.do_clustering:
+                        out.bump('probes', 'polychord_without_clustering')
                 import taurex.mpi as tm
                 tm.barrier()
                 return None
@@ -318,7 +331,8 @@ def execute(case, keep_text=False, after_fit=None):
                                        sigma_fraction=cfg['sigma_fraction'])
         else:
             opt = klasses['polychord'](polychord_path=chain, observed=obs,
-                                       model=model, cluster=True,
+                                       model=model,
+                                       cluster=cfg.get('poly_cluster', True),
                                        sigma_fraction=cfg['sigma_fraction'])
         S.configure_optimizer(opt, fit, derived)
         opts[r] = opt
